@@ -80,8 +80,10 @@ fn observe(text: &str) -> (String, Outcome) {
 /// also reports, after a run-time error, the canonical value of (0, *log, names...) as the
 /// host sees it in the interpreter the program ran in
 fn observe_state(text: &str, names: &[String]) -> (String, Outcome, Option<String>) {
+    run::set_thread_fuel(8_000);
     let rss_before = rss_mb();
     let (outcome, interp) = exec::run_program_keep(text);
+    run::set_thread_fuel(run::FUEL);
     if std::env::var("VERIF_TRACE").is_ok() {
         let after = rss_mb();
         if after > rss_before + 300 {
